@@ -39,7 +39,11 @@ package config
 //@   property C18
 //@   observe mw := call MarshalWithOptions
 //@   observe wf := call WriteFile
+//@   observe wc := call WithComment
 //@   modifies heap "[]*yaml.Comment", heap "[]string"   # the comment map built for the encoder
+// every option is written, whatever its value: the encoder gets the comment map and no other option (an encoder
+// told to leave out empty values would write a file in which a zero that was set reads back as the default)
+//@   ensures [encoder-options] mw ==> wc.count == 1 && len(mw.arg1) == 1
 //@   ensures [file-replaced-with-encoding] err == nil ==> mw.count == 1 && mw.res1 == nil && wf.count == 1 && wf.res0 == nil && wf.arg1 == mw.res0 && mw.arg0.val == c
 
 // loadFromViper decodes all settings of the viper it is given into a copy of the defaults. Values reach
